@@ -29,6 +29,10 @@ ASSUMPTIONS = [
     "leaf matrices are taken from the implementation (leaf correctness is C01/C05-C10's subject); only the algebra is under test",
     "dense spaces <= ~40 x 96 elements, depth <= 2 (+ adaptors)",
     "0-dimensional shapes excluded",
+    "inputs are real or complex FLOATING arrays (vectors of R^n / C^n, as in C01's 'all x in C^ishape'); integer and boolean "
+    "input arrays follow NumPy's integer arithmetic (bool addition is 'or', narrow integers wrap, several leaves truncate "
+    "their float weights into an integer output) so no matrix identity holds for them on the pinned tree: tried and "
+    "withdrawn as oracle over-reach (DESIGN 10.9)",
 ]
 
 
